@@ -427,7 +427,7 @@ func init() {
 					return false
 				})
 				rets := fc.blocksWith(func(n ast.Node) bool {
-					if as, ok := n.(*ast.AssignStmt); ok && !countersAreFields {
+					if as, ok := n.(*ast.AssignStmt); ok {
 						// the store of the finished value into the table
 						for _, l := range as.Lhs {
 							if ie, ok := ast.Unparen(l).(*ast.IndexExpr); ok {
